@@ -177,7 +177,13 @@ func c08BtcCase(cf *CaseFile, r *Rng, w *c03World, idx int, directed int) error 
 	}
 	funded := "None"
 	if obs.Funded != nil {
-		funded = "(Some " + c08CoqTxOuts(obs.Funded) + ")"
+		// the wallet's answer as the model sees it: the id of the transaction the wallet finalizes (LND; it differs
+		// from the id of the unsigned funded transaction when an input needs a scriptSig) and the funded outputs
+		idOf := obs.Funded
+		if obs.Final != nil {
+			idOf = obs.Final
+		}
+		funded = fmt.Sprintf("(Some (%s, %s))", CoqStr(idOf.TxHash().String()), c03CoqOuts(obs.Funded.TxOut))
 	}
 	in := fmt.Sprintf("(mk_boi %d%%N %s %s %s %s %s %s %s %s)", backend, CoqStr(takerHex), CoqStr(makerHex), CoqStr(hashHex), CoqZu(amount),
 		coqBytes(want), funded, CoqZ(inValue*int64(nin)), CoqBool(bcastFail))
